@@ -124,15 +124,18 @@ def hexFold : List Char → Nat → Option Nat
     | some d => hexFold cs (acc * 16 + d)
     | none => none
 
-/-- `u32::from_str_radix(s, 16).unwrap()` -/
-def parseHexU32 (s : List Char) : M Nat :=
-  let digits := match s with
-    | '+' :: r => r
-    | _ => s
+/-- hex digits → value, failing like `u32::from_str_radix` (empty, not hex, more than 32 bits) -/
+def hexDigitsU32 (digits : List Char) : M Nat :=
   if digits.isEmpty then .error .hexParse
   else match hexFold digits 0 with
     | some n => if n < 4294967296 then .ok n else .error .hexParse
     | none => .error .hexParse
+
+/-- `u32::from_str_radix(s, 16).unwrap()` (a leading `+` is accepted by the Rust function) -/
+def parseHexU32 (s : List Char) : M Nat :=
+  hexDigitsU32 (match s with
+    | '+' :: r => r
+    | _ => s)
 
 def validScalar (n : Nat) : Bool := n < 0xD800 || (0xDFFF < n && n < 0x110000)
 
